@@ -133,10 +133,17 @@ def run(ctx):
     # totality of the model itself: every MC_ScriptVM family checks `Total` and the termination measure
     from concurrent.futures import ThreadPoolExecutor
     ctx.specdir()
-    fams = ctx.pick(["unary", "flow4", "two2"], ["unary", "flow5", "two3", "binary", "shift", "nonmin"])
+    fams = ctx.pick(["unary", "flow4", "two2"], ["unary", "flow5", "two3", "binary", "uflow4"])
     with ThreadPoolExecutor(max_workers=3) as ex:
         list(ex.map(lambda f: ctx.tlc("MC_ScriptVM.tla", "MC_ScriptVM_%s.cfg" % f, workers=6, heap="6g", timeout=2400), fams))
-    cases = byte_cases(ctx, ctx.pick(2500, 65536), ctx.pick(1500, 60000))
+    # the operand-table families of the model are also replayed here (wide numbers, shift tables, unary edge operands)
+    fq, ft = c05.FAMILIES_QUICK, c05.FAMILIES_THOROUGH
+    c05.FAMILIES_QUICK, c05.FAMILIES_THOROUGH = ["wide", "shift"], ["wide", "shift", "unary", "nonmin"]
+    try:
+        model_cases = c05.cases_from_model(ctx, ctx.pick(2500, 20000))
+    finally:
+        c05.FAMILIES_QUICK, c05.FAMILIES_THOROUGH = fq, ft
+    cases = model_cases + byte_cases(ctx, ctx.pick(2500, 65536), ctx.pick(1500, 60000))
     cases += V.random_cases(ctx, ctx.pick(1200, 40000), tag="rnd")
     cases += sigop_cases(ctx, ctx.pick(1500, 40000))
     cases += odd_context_cases(ctx, ctx.pick(600, 10000))
